@@ -282,6 +282,52 @@ def t_base(repo, specs, orientation, h):
     return fn
 
 
+def t_wrappers(repo, specs, orientation, h):
+    """The orientation wrappers around the inner functions: s_to_anchor hands _s_to_anchor the index (mirrored to
+    4^h - 1 - S for the reversed orientations), the unchanged level h and the flags of its class; ij_to_s mirrors the
+    inner result back - so the wrappers compose to the identity around parts A-C."""
+    from ..pyvc.interp_expr import HarnessStub
+    cls = {"uv": (False, False, False), "vu": (True, False, False), "uw": (False, False, True), "wu": (True, False, True),
+           "vw": (True, True, False), "wv": (False, True, False)}[orientation]      # (reverse, invert_j, flip_ij) as the statement's six curves
+
+    def fn(ctx):
+        it = Interp(ctx, repo, registry(), specs)
+        ops = it.ops
+        mod = repo.module("a5.core.hilbert")
+        S = ops.int_var("S")
+        ctx.assume(zand(S >= 0, S < (1 << (2 * h))))
+        seen = {}
+
+        def fake_inner(s, resolution, invert_j, flip_ij):
+            seen["args"] = (s, resolution, invert_j, flip_ij)
+            return it.construct(it.module_global(mod, "Anchor"), [0, (0, 0), (1, 1)], {}, None, None)
+        it.extra_globals["_s_to_anchor"] = HarnessStub(fake_inner)
+        it.call(S2A_W, S, h, orientation)
+        s_in, res_in, inv_in, flip_in = seen["args"]
+        n = (1 << (2 * h))
+        want = ops.binop("-", ops.binop("-", n, S, "w"), 1, "w") if cls[0] else S
+        ctx.oblige("s_to_anchor-passes-the-level-unchanged", zbool(ops.equal(res_in, h)), None, "post")
+        ctx.oblige("s_to_anchor-passes-the-(mirrored)-index", zbool(ops.equal(s_in, want)), None, "post")
+        ctx.oblige("s_to_anchor-passes-the-flags-of-its-class", zand(zbool(ops.equal(inv_in, cls[1])), zbool(ops.equal(flip_in, cls[2]))), None, "post")
+        inner = ops.int_var("s_inner")
+        ctx.assume(zand(inner >= 0, inner < n))
+        got = {}
+
+        def fake_ij(ij, invert_j, flip_ij, resolution):
+            got["args"] = (invert_j, flip_ij, resolution)
+            return inner
+        it.extra_globals["_ij_to_s"] = HarnessStub(fake_ij)
+        out = it.call(IJ2S_W, (0, 0), h, orientation)
+        want2 = ops.binop("-", ops.binop("-", n, inner, "w"), 1, "w") if cls[0] else inner
+        ctx.oblige("ij_to_s-passes-level-and-flags", zand(zbool(ops.equal(got["args"][2], h)), zbool(ops.equal(got["args"][0], cls[1])),
+                                                          zbool(ops.equal(got["args"][1], cls[2]))), None, "post")
+        ctx.oblige("ij_to_s-mirrors-the-inner-index-back", zbool(ops.equal(out, want2)), None, "post")
+        # the two mirrors cancel: with inner == s_in (parts A-C), out == S
+        ctx.oblige("mirrors-cancel", z3.Implies(zbool(ops.equal(inner, s_in)), zbool(ops.equal(out, S))), None, "post")
+        return {"S": S}
+    return fn
+
+
 def tasks(tier):
     repo = Repo(REPO)
     specs = specs_module()
@@ -295,6 +341,9 @@ def tasks(tier):
         for cname, (inv, flip) in CLASSES.items():
             out.append(PTask("C18/B/recover[h=%d,%s]" % (h, cname), t_recover(repo, specs, h, inv, flip), [S2A, IJ2S, IJ2Q, Q2KJ, KJ2IJ, Q2F],
                              deciding=True, replay_kind="hilbert", timeout_ms=300000, settings=RECOVER))
+    for o in ORIENTATIONS:
+        for h in range(1, 29):
+            out.append(PTask("C18/W/wrappers[%s,h=%d]" % (o, h), t_wrappers(repo, specs, o, h), [S2A_W, IJ2S_W], deciding=True, replay_kind="hilbert"))
     for o in ORIENTATIONS:
         for h in range(1, 29):
             out.append(PTask("C18/C/base[%s,h=%d]" % (o, h), t_base(repo, specs, o, h), [S2A_W, IJ2S_W, GPV, F2IJ, "a5.geometry.pentagon.PentagonShape.get_center"],
